@@ -71,7 +71,7 @@ man = {
     ],
     "checks": checks,
     "not_applicable": na,
-    "notes": "All checks are static: nothing of /repo is executed. Five genuine defects were found and repaired in /repo ('fix:' commits 13746ce, a89a5c3, ef69618, 6d8549d, 6b8fb82), see known_findings.json and DESIGN.md section 4. Every property is claimed for the structural clauses listed in DESIGN.md section 5 only; the behavioural remainder of each property is listed as not decided in DESIGN.md section 7 and in each check's level text.",
+    "notes": "All checks are static: nothing of /repo is executed. Six genuine defects were found and repaired in /repo ('fix:' commits 13746ce, a89a5c3, ef69618, 6d8549d, 6b8fb82, 3370f28), see known_findings.json and DESIGN.md section 4. Every property is claimed for the structural clauses listed in DESIGN.md section 5 only; the behavioural remainder of each property is listed as not decided in DESIGN.md section 7 and in each check's level text.",
 }
 with open(os.path.join(HERE, "MANIFEST.json"), "w") as f:
     json.dump(man, f, indent=1)
